@@ -167,48 +167,71 @@ def wrappers(ck, radio, agg):
 
 
 MUTABLE_NODES = (ast.List, ast.Dict, ast.Set, ast.ListComp, ast.DictComp, ast.SetComp)
-# class-level tables that are documented constants (never written through an instance)
-READ_ONLY_CLASS_TABLES = {("fake_ble", "UrlServiceData", "codex_prefix"), ("fake_ble", "UrlServiceData", "codex_suffix")}
+TABLE_MUTATORS = ("append", "extend", "insert", "pop", "remove", "clear", "sort", "reverse", "update", "setdefault", "popitem", "add", "discard")
+
+
+def _is_mutable_expr(val):
+    return isinstance(val, MUTABLE_NODES) or (isinstance(val, ast.BinOp) and any(isinstance(x, MUTABLE_NODES) for x in ast.walk(val))) or \
+        (isinstance(val, ast.Call) and isinstance(val.func, ast.Name) and val.func.id in ("list", "dict", "set", "bytearray"))
+
+
+def _writers_of(prog, name, as_attr):
+    """functions that store into / mutate / re-bind the shared object called `name` (reached as an attribute `x.name`, or - for module
+    globals - as the bare name); reads, lookups and iteration do not count"""
+    writers = []
+
+    def base_is(b):
+        while isinstance(b, ast.Subscript):
+            b = b.value
+        if as_attr:
+            return isinstance(b, ast.Attribute) and b.attr == name
+        return isinstance(b, ast.Name) and b.id == name
+    for f in prog.all_funcs():
+        declared_global = any(isinstance(x, ast.Global) and name in x.names for x in ast.walk(f.node))
+        for node in iter_own_nodes(f.node):
+            if isinstance(node, (ast.Assign, ast.AugAssign, ast.AnnAssign, ast.Delete)):
+                tgs = node.targets if isinstance(node, (ast.Assign, ast.Delete)) else [node.target]
+                for t in tgs:
+                    for tt in (t.elts if isinstance(t, (ast.Tuple, ast.List)) else [t]):
+                        if isinstance(tt, ast.Subscript) and base_is(tt):
+                            writers.append(f.qualname)
+                        elif as_attr and isinstance(tt, ast.Attribute) and tt.attr == name and not (isinstance(tt.value, ast.Name) and tt.value.id == "self"):
+                            writers.append(f.qualname)        # Class.name = ..  (self.name = .. creates an instance attribute instead)
+                        elif (not as_attr) and isinstance(tt, ast.Name) and tt.id == name and declared_global:
+                            writers.append(f.qualname)
+            if isinstance(node, ast.Call) and isinstance(node.func, ast.Attribute) and node.func.attr in TABLE_MUTATORS and base_is(node.func.value):
+                writers.append(f.qualname)
+    return sorted(set(writers))
 
 
 def no_leak(ck, agg, radios):
-    """R09.5 - configuration lives in per-instance attributes only"""
+    """R09.5 - configuration lives in per-instance attributes only: an object shared by all instances (class attribute, module global) may
+    be a lookup table, but nothing in the package may write to it"""
     n = 0
     for cls in ck.prog.all_classes():
         for name, val in cls.class_attrs.items():
             n += 1
-            mutable = isinstance(val, MUTABLE_NODES) or (isinstance(val, ast.BinOp) and any(isinstance(x, MUTABLE_NODES) for x in ast.walk(val))) or \
-                (isinstance(val, ast.Call) and isinstance(val.func, ast.Name) and val.func.id in ("list", "dict", "set", "bytearray"))
-            allowed = (cls.module.name, cls.name, name) in READ_ONLY_CLASS_TABLES
-            agg.add("R09.5", (cls.module.relpath, cls.name), "class attribute %s is not shared mutable state" % name, (not mutable) or allowed,
-                    "class-level mutable object %s.%s is shared by all instances" % (cls.name, name))
-            if mutable and allowed:
-                # the table must never be stored to
-                writers = []
-                for f in ck.prog.all_funcs():
-                    for node in iter_own_nodes(f.node):
-                        tg = None
-                        if isinstance(node, (ast.Assign, ast.AugAssign)):
-                            tgs = node.targets if isinstance(node, ast.Assign) else [node.target]
-                            for t in tgs:
-                                b = t
-                                while isinstance(b, ast.Subscript):
-                                    b = b.value
-                                if isinstance(b, ast.Attribute) and b.attr == name:
-                                    writers.append(f.qualname)
-                        if isinstance(node, ast.Call) and isinstance(node.func, ast.Attribute) and node.func.attr in ("append", "extend", "insert", "pop", "remove", "clear", "sort") \
-                                and isinstance(node.func.value, ast.Attribute) and node.func.value.attr == name:
-                            writers.append(f.qualname)
-                agg.add("R09.5", (cls.module.relpath, cls.name), "class table %s is read-only" % name, not writers, "written by %s" % writers)
+            if val is None or not _is_mutable_expr(val):
+                agg.add("R09.5", (cls.module.relpath, cls.name), "class attribute %s is not shared mutable state" % name, True, "")
+                continue
+            writers = _writers_of(ck.prog, name, True)
+            agg.add("R09.5", (cls.module.relpath, cls.name), "class attribute %s is not shared mutable state" % name, not writers,
+                    "class-level mutable object %s.%s is shared by all instances and written by %s" % (cls.name, name, writers))
     for mod in ck.prog.modules.values():
         for node in mod.tree.body:
-            if isinstance(node, ast.Assign) and isinstance(node.value, MUTABLE_NODES + (ast.Call,)):
-                isbad = isinstance(node.value, MUTABLE_NODES) or (isinstance(node.value.func, ast.Name) and node.value.func.id in ("list", "dict", "set", "bytearray"))
-                for t in node.targets:
-                    if isinstance(t, ast.Name):
-                        n += 1
-                        agg.add("R09.5", (mod.relpath, "<module>"), "module global %s is not mutable driver state" % t.id, not isbad,
-                                "module-level mutable object %s" % t.id)
+            tgts, val = [], None
+            if isinstance(node, ast.Assign):
+                tgts, val = node.targets, node.value
+            elif isinstance(node, ast.AnnAssign) and node.value is not None:
+                tgts, val = [node.target], node.value
+            if val is None or not _is_mutable_expr(val):
+                continue
+            for t in tgts:
+                if isinstance(t, ast.Name):
+                    n += 1
+                    writers = _writers_of(ck.prog, t.id, False)
+                    agg.add("R09.5", (mod.relpath, "<module>"), "module global %s is not mutable driver state" % t.id, not writers,
+                            "module-level mutable object %s is written by %s" % (t.id, writers))
     # every shadow container is allocated inside the constructor (distinct per object, distinct per register)
     for radio in radios:
         cell = radio.st_init.heap[radio.ref.ident]
